@@ -135,6 +135,9 @@ pub fn generate(prop: Prop, seed: u64, run: u64, thorough: bool) -> RunSpec {
     if prop == Prop::C14 {
         return gen::generate_c14(&mut rng);
     }
+    if prop == Prop::C16 && run % 1024 == 1023 {
+        return gen::generate_serde_big(&mut rng);
+    }
     if thorough && matches!(prop, Prop::C02 | Prop::C03) && run % 4096 == 4095 {
         return gen::generate_growth(&mut rng);
     }
